@@ -33,7 +33,7 @@ def spec_entities():
     return ents
 
 
-def build_xml(ents):
+def build_xml(ents, aggregate_valid_until=None):
     from saml2_tophat import md, xmldsig as ds
     eds = []
     for e in ents:
@@ -52,7 +52,7 @@ def build_xml(ents):
                                        single_sign_on_service=sso, single_logout_service=slo)
             ed = md.EntityDescriptor(entity_id=e['id'], valid_until=e['valid_until'], idpsso_descriptor=[role])
         eds.append(ed)
-    return md.EntitiesDescriptor(entity_descriptor=eds).to_string()
+    return md.EntitiesDescriptor(entity_descriptor=eds, valid_until=aggregate_valid_until).to_string()
 
 
 def run(tier, seed):
@@ -67,7 +67,10 @@ def run(tier, seed):
     store = object.__new__(mdstore.MetadataStore)
     store.metadata = {}
     for i, src in enumerate(sources):
-        imm = mdstore.InMemoryMetaData(None, build_xml(src))
+        # the second aggregate carries a validUntil of its own that is still in the future: an entity inside it whose OWN
+        # validUntil has passed is expired all the same
+        future = time.strftime('%Y-%m-%dT%H:%M:%SZ', time.gmtime(time.time() + 86400))
+        imm = mdstore.InMemoryMetaData(None, build_xml(src, aggregate_valid_until=future if i == 1 else None))
         imm.to_old = []
         imm.load()
         store.metadata['src%d' % i] = imm
